@@ -7,6 +7,9 @@ mode 1 (most cases): programs over the timer wheel itself; deadlines past / now 
 mode 2 (a few dozen): programs on a real Runtime (sleep_until, drops, timeouts
        around instrumented inner futures, intervals, pipe I/O, task wake-ups).
 mode 3: Interval::tick arithmetic with offsets/periods up to 1500 years.
+mode 4: Runtime::poll_with / poll turns called by hand on a real Runtime, with and
+       without an I/O completion waiting for the driver.
+mode 5: Interval starting in the future, first tick dropped 1..5 times.
 plus a small adversarial stream of malformed lines.
 """
 import random
@@ -124,8 +127,53 @@ def gen_b(rng):
             a, b = anyslot(), anyslot()
             steps += [8, a, b]
             cur = max(cur, 4 * min(a, b))
-        else:
+        elif r < 0.972:
             steps += [9, rng.randrange(0, 20)]
+        elif r < 0.986 or had_interval:
+            # a timer next to I/O that completes at every driver poll
+            d = near()
+            steps += [10, d, rng.randrange(4)]
+            cur = max(cur, 4 * d)
+        else:
+            # Interval whose first tick is cancelled (start mostly well ahead)
+            had_interval = True
+            cn = rng.randrange(1, 4)
+            s = min(MAX_SLOT, (cur + cn + 2) // 4 + rng.choice([1, 1, 2])) if rng.random() < 0.85 else anyslot()
+            p = rng.choice([1, 2, 3, 4, 6])
+            m = rng.randrange(1, 4)
+            steps += [11, s, p, cn, m]
+            ft = False
+            for _ in range(cn):
+                tdl = 4 * s if not ft else 4 * s + ((cur - 4 * s) // p + 1) * p
+                cq = cur + 1
+                if tdl > cur:
+                    cur = min(tdl, cq)
+                if tdl <= cq:
+                    ft = True
+            for _ in range(m):
+                cur = max(cur, 4 * s) if not ft else 4 * s + ((cur - 4 * s) // p + 1) * p
+                ft = True
+        count += 1
+    return [2, drv, count] + steps
+
+
+def gen_b_focus(rng, which):
+    """programs built around one of the two scenario classes"""
+    drv = rng.randrange(2)
+    steps, count, cur = [], 0, 0
+    if rng.random() < 0.5:
+        steps += [1, rng.randrange(0, 6)]
+        count += 1
+    if which == 0:
+        for _ in range(rng.randrange(1, 3)):
+            d = min(MAX_SLOT, cur // 4 + rng.choice([1, 2, 3]))
+            steps += [10, d, rng.randrange(4)]
+            cur = max(cur, 4 * d)
+            count += 1
+    else:
+        cn = rng.randrange(1, 4)
+        s = rng.choice([2, 3, 4, 5])
+        steps += [11, s, rng.choice([1, 2, 3, 4, 6]), cn, rng.randrange(1, 4)]
         count += 1
     return [2, drv, count] + steps
 
@@ -146,6 +194,38 @@ def gen_i(rng):
     return [3, off_s, off_ns, per_s, per_ns]
 
 
+def gen_l(rng):
+    drv = rng.randrange(2)
+    n = rng.randrange(2, 10)
+    t = 0
+    steps, made, count = [], 0, 0
+    seen = []
+    for _ in range(n):
+        if rng.random() < 0.4 and t < 10:
+            t += rng.choice([1, 1, 2])
+        r = rng.random()
+        if made == 0 or (r < 0.4 and made < 16):
+            d = deadline(rng, t, seen)
+            seen.append(d)
+            steps += [1, t, d]
+            made += 1
+        elif r < 0.9:
+            ans = rng.randrange(2)
+            rem = 1 if ans == 0 else rng.randrange(2)
+            steps += [2, t, ans, rem]
+        else:
+            steps += [3, t, rng.randrange(made)]
+        count += 1
+    return [4, drv, count] + steps
+
+
+def gen_f(rng):
+    lead_s = rng.choice([1, 2, 60, 10 ** 6, TWO64_S, 47000000000, rng.randrange(1, 5 * 10 ** 10)])
+    per_s = rng.choice([0, 0, 0, 1, 1000, TWO64_S + 1, rng.randrange(0, 5 * 10 ** 10)])
+    per_ns = rng.choice([0, 1, 1000, 999999999, rng.randrange(10 ** 9)])
+    return [5, lead_s, rng.choice([0, 1, rng.randrange(10 ** 9)]), per_s, per_ns, rng.randrange(1, 6)]
+
+
 def gen_bad(rng):
     k = rng.randrange(0, 8)
     return [rng.choice([0, 1, 1, 2, 3, 4])] + [rng.randrange(0, 9) for _ in range(k)]
@@ -161,12 +241,17 @@ def generate(seed, n):
     nb = b_count(n)
     for i in range(n):
         if i < nb:
-            cases.append(gen_b(rng))
+            # every third runtime program is built around busy I/O / a cancelled first tick
+            cases.append(gen_b_focus(rng, (i // 3) % 2) if i % 3 == 2 else gen_b(rng))
             continue
         r = rng.random()
-        if r < 0.08:
+        if r < 0.05:
+            cases.append(gen_l(rng))
+        elif r < 0.07:
+            cases.append(gen_f(rng))
+        elif r < 0.14:
             cases.append(gen_i(rng))
-        elif r < 0.11:
+        elif r < 0.17:
             cases.append(gen_bad(rng))
         else:
             cases.append(gen_a(rng))
@@ -184,6 +269,10 @@ def describe(case):
         return "runtime program (%s driver)" % ("polling" if len(case) > 1 and case[1] == 1 else "io_uring")
     if m == 3:
         return "interval arithmetic"
+    if m == 4:
+        return "loop turns on a runtime (%s driver)" % ("polling" if len(case) > 1 and case[1] == 1 else "io_uring")
+    if m == 5:
+        return "interval, first tick cancelled"
     return "malformed"
 
 
@@ -238,6 +327,47 @@ def parse_a(case):
         return None
 
 
+def parse_l(case):
+    """mode-4 case -> (drv, [step tuples]) or None when malformed"""
+    try:
+        drv, n = case[1], case[2]
+        if drv > 1:
+            return None
+        i, steps, made, last = 3, [], 0, 0
+        for _ in range(n):
+            op, t = case[i], case[i + 1]
+            i += 2
+            if t < last or t > 63:
+                return None
+            last = t
+            if op == 1:
+                d = case[i]
+                i += 1
+                if d > 100000 or made >= 16:
+                    return None
+                made += 1
+                steps.append((1, t, d))
+            elif op == 2:
+                ans, rem = case[i], case[i + 1]
+                i += 2
+                if ans > 1 or rem > 1 or (rem == 0 and ans == 0):
+                    return None
+                steps.append((2, t, ans, rem))
+            elif op == 3:
+                k = case[i]
+                i += 1
+                if k >= made:
+                    return None
+                steps.append((3, t, k))
+            else:
+                return None
+        if i != len(case):
+            return None
+        return drv, steps
+    except IndexError:
+        return None
+
+
 def nontrivial(case, out):
     """not rejected; mode 1: some timer really entered the wheel and the wheel was
     observed (wake / min_timeout / poll / loop); mode 2/3: the program ran"""
@@ -250,4 +380,9 @@ def nontrivial(case, out):
         ins = any(s[0] == 1 and s[2] > s[1] for s in p[1])
         obs = any(s[0] in (4, 5, 6, 7) for s in p[1])
         return ins and obs
+    if case[0] == 4:
+        p = parse_l(case)
+        if p is None:
+            return False
+        return any(s[0] == 1 and s[2] > s[1] for s in p[1]) and any(s[0] == 2 for s in p[1])
     return out[:1] in ([0], [2])
